@@ -1,6 +1,7 @@
 //! jbkdrive - conformance harness binding the TLA+ specification in /verif/spec to the jubako
 //! implementation in /repo (path dependency, rebuilt from the working tree on every check).
 mod codec;
+mod container;
 mod content;
 mod entries;
 mod gen;
@@ -47,6 +48,18 @@ fn run_one(v: Value) {
         "content" => {
             let s: content::Scn = serde_json::from_value(v).expect("bad content scenario");
             content::run(&s);
+        }
+        "container" => {
+            let s: container::Scn = serde_json::from_value(v).expect("bad container scenario");
+            container::run(&s);
+        }
+        "dump" => {
+            let s: container::DumpScn = serde_json::from_value(v).expect("bad dump scenario");
+            container::dump(&s);
+        }
+        "tool" => {
+            let s: container::ToolScn = serde_json::from_value(v).expect("bad tool scenario");
+            container::tool(&s);
         }
         "entries" => {
             let s: entries::Scn = serde_json::from_value(v).expect("bad entries scenario");
